@@ -10,6 +10,9 @@ same deterministic functions as in go/cmd/harness/c20.go; the file is
 the scan), or `bin` alone when not packed. The model (`Impl.scan` with the
 generated geometry, full reads) predicts the offset handed to the zip reader.
 
+`proc <tree> <rc> <args>` = the real CLI executable packed and started with a command line:
+demanded and predicted `proc srcmarker=0 exit=<rc> entry=ran clean=1` for every command line.
+
 Result: `off=<pos|none> <exit=<rc> files=ok | fall | misfound>`; `HANG` if the model loop
 makes no progress. `spec=`/`kf=` are attached when the model's result is not what
 the property demands for this case (first occurrence of the marker is the one
@@ -56,6 +59,11 @@ def showRes (trueStart : Nat) (rc : String) : Res → String
 
 def runCase (payload : String) : String :=
   match payload.splitOn " " with
+  | ["proc", _tree, rc, _args] =>
+    -- the real executable: `main` calls RunPackedBinary first and unconditionally
+    -- (`Gen.mainCallsRunPackedFirst`, obligation `main_runs_packed_first`), so the command line
+    -- does not matter; the interpreter binary does not contain the marker (`geom_marker_assembled`)
+    s!"proc srcmarker=0 exit={rc} entry=ran clean=1\tnt=1"
   | [packed, n, kind, seed, plants, ws, _tree, rc, zip4] =>
     match n.toNat?, kind.toNat?, seed.toNat?, parsePlants plants, hexDecode ws, hexDecode zip4 with
     | some n, some kind, some seed, some plants, some ws, some zip4 =>
